@@ -3936,7 +3936,15 @@ class PackChunkGenerator:
                 raw = unpacked.decomp_chunks
             chunks: list[bytes] | Iterator[bytes]
             if unpacked.comp_chunks is not None and reuse_compressed:
-                chunks = unpacked.comp_chunks
+                # comp_chunks only hold the zlib stream; the entry header
+                # still has to be written in front of it.
+                header = pack_object_header(
+                    type_num,
+                    raw[0] if isinstance(raw, tuple) else None,
+                    sum(map(len, unpacked.decomp_chunks)),
+                    object_format=self.object_format,
+                )
+                chunks = [bytes(header), *unpacked.comp_chunks]
             else:
                 chunks = pack_object_chunks(
                     type_num,
